@@ -81,18 +81,16 @@ Fixpoint fail_from (f : cat -> bool) (i : nat) (tr : list step_obs) : list nat :
   | (_, _, d) :: rest => if f d then fail_from f (S i) rest else i :: fail_from f (S i) rest
   end.
 
-(* code variants (clip, cleardef, clampst, schemafirst, rekey, safecancel), in the order run.py names them:
-   today's tree, today's tree with the offered repair of one or both open findings, and today's tree with one landed repair
-   taken out again *)
+(* code variants (clip, cleardef, clampst, schemafirst, rekey, safecancel), in the order run.py names them: today's tree (every
+   repair has landed) and today's tree with one landed repair taken out again *)
 Definition variants : list (bool * bool * bool * bool * bool * bool) :=
-  [(false, true, true, true, true, false);     (* head *)
-   (true, true, true, true, true, false);      (* head + clip *)
-   (false, true, true, true, true, true);      (* head + safecancel *)
-   (true, true, true, true, true, true);       (* every repair *)
-   (false, false, true, true, true, false);    (* head without b424c13 *)
-   (false, true, false, true, true, false);    (* head without 3695b47 *)
-   (false, true, true, false, true, false);    (* head without f21700b *)
-   (false, true, true, true, false, false)].   (* head without f36a23d *)
+  [(true, true, true, true, true, true);       (* head *)
+   (false, true, true, true, true, true);      (* head without 2b62e48 (clip) *)
+   (true, false, true, true, true, true);      (* head without b424c13 *)
+   (true, true, false, true, true, true);      (* head without 3695b47 *)
+   (true, true, true, false, true, true);      (* head without f21700b *)
+   (true, true, true, true, false, true);      (* head without f36a23d *)
+   (true, true, true, true, true, false)].     (* head without b51128b (guarded cancel-delete) *)
 Record verdict := { v_match : list Z; v_wf : list nat; v_cover : list nat }.
 
 Definition check_case (per : Z) (sc : bool) (modelled : bool) (tr : list step_obs) : verdict :=
